@@ -344,6 +344,57 @@ def make_toy(rng):
     return dag, info
 
 
+def make_layered(rng):
+    """Structured graph with MANY distinct paths between a root and the leaves (width-2 fully connected layers, stacked diamonds or a
+    complete DAG): path counts 2^L reach multiples of 256, which random sparse graphs never do."""
+    n = int(rng.integers(2, 5))
+    style = str(rng.choice(["layers", "diamonds", "complete"]))
+    g = {"torch": torch}
+    defs, meta, order = {}, {}, []
+
+    def indep(nm, kind):
+        shape = (n,) if kind == "ind" else ()
+        defs[nm] = DataVariable()
+        meta[nm] = dict(kind=kind, shape=shape, indwise=True, axis=kind == "ind", indep=True)
+        order.append(nm)
+
+    def link(nm, parents, body):
+        defs[nm] = LinkedVariable(eval(f"lambda *, {', '.join(sorted(set(parents)))}: {body}", g))
+        shape = (n,) if any(meta[p]["axis"] for p in parents) else ()
+        meta[nm] = dict(kind="derived", shape=shape, indwise=all(meta[p]["indwise"] for p in parents), axis=len(shape) == 1, indep=False,
+                        parents=sorted(set(parents)), src=body)
+        order.append(nm)
+
+    indep("r0", "ind")
+    indep("p0", "pop")
+    if style == "layers":
+        L = int(rng.integers(4, 11))
+        link("a1", ["r0", "p0"], "0.5 * r0 + p0")
+        link("b1", ["r0"], "0.25 * r0")
+        for l in range(2, L + 1):
+            link(f"a{l}", [f"a{l-1}", f"b{l-1}"], f"0.5 * a{l-1} + 0.25 * b{l-1}")
+            link(f"b{l}", [f"a{l-1}", f"b{l-1}"], f"0.25 * a{l-1} - 0.5 * b{l-1}")
+        link("top", [f"a{L}", f"b{L}"], f"a{L} + b{L}")
+    elif style == "diamonds":
+        D = int(rng.integers(3, 11))
+        prev = "r0"
+        for d in range(D):
+            link(f"l{d}", [prev], f"0.5 * {prev}")
+            link(f"m{d}", [prev, "p0"] if d == 0 else [prev], f"0.25 * {prev}" + (" + p0" if d == 0 else ""))
+            link(f"j{d}", [f"l{d}", f"m{d}"], f"l{d} - m{d}")
+            prev = f"j{d}"
+        link("top", [prev], f"torch.tanh({prev})")
+    else:
+        N = int(rng.integers(4, 11))
+        names = ["r0"]
+        for j in range(1, N):
+            ps = list(names) + (["p0"] if j == 1 else [])
+            link(f"c{j}", ps, " + ".join(f"{0.5 ** (k + 1)} * {p}" for k, p in enumerate(ps)))
+            names.append(f"c{j}")
+    dag = VariablesDAG.from_dict(defs)
+    return dag, dict(n=n, k=1, meta=meta, order=order)
+
+
 def _tokenize(s):
     out, cur = [], ""
     for ch in s:
